@@ -88,13 +88,21 @@ class RefProblem(object):
         self.X[self.X > 0] += nprng.random(int((self.X > 0).sum())) * 0.5
         # query: reference-like cells, genes permuted
         nq = n_query or rng.randint(8, 20)
-        self.query_genes = list(self.genes)
+        # query genes: most reference genes (0-2 missing) in another order,
+        # plus 0-2 genes the reference does not have
+        shared = list(self.genes)
+        rng.shuffle(shared)
+        shared = shared[rng.randint(0, 2):]
+        self.shared_genes = sorted(shared)
+        self.query_genes = shared + ['x%02d' % i
+                                     for i in range(rng.randint(0, 2))]
         rng.shuffle(self.query_genes)
         qidx = [rng.randrange(self.n_cells) for _ in range(nq)]
-        col = [self.genes.index(g) for g in self.query_genes]
-        self.QX = (self.X[qidx][:, col]
-                   + nprng.integers(0, 3, (nq, self.n_genes))
-                   ).astype(np.float32)
+        QX = np.zeros((nq, len(self.query_genes)))
+        for j, g in enumerate(self.query_genes):
+            if g in self.genes:
+                QX[:, j] = np.floor(self.X[qidx][:, self.genes.index(g)])
+        self.QX = (QX + nprng.integers(0, 3, QX.shape)).astype(np.float32)
         self.query_ids = ['q%03d' % i for i in rng.sample(range(1000), nq)]
 
     def taxonomy_tree(self):
@@ -377,6 +385,11 @@ class Selection(StageRun):
     mid = ('cell_type_mapper.marker_selection.selection_pipeline',
            'select_marker_genes_v2', 'after')
 
+    #: hand the query gene names over as a `set` (as cli/query_markers.py does
+    #: when no query file is given): iteration order then depends on the
+    #: hash seed
+    query_as_set = False
+
     def prepare(self):
         self.ref_marker_file()
         self.result = None
@@ -387,7 +400,9 @@ class Selection(StageRun):
         self.result = None
         self.result = create_marker_gene_lookup_from_ref_list(
             reference_marker_path_list=[self.ref_marker_file()],
-            query_gene_names=list(self.prob.query_genes),
+            query_gene_names=(set(self.prob.query_genes)
+                              if self.query_as_set
+                              else list(self.prob.query_genes)),
             n_per_utility=2, n_per_utility_override=None,
             n_processors=n_processors, behemoth_cutoff=1000000,
             tmp_dir=self.tmp)
@@ -471,7 +486,7 @@ class Mapping(StageRun):
         lookup = {}
         for p in tt.all_parents:
             key = 'None' if p is None else '%s/%s' % (p[0], p[1])
-            lookup[key] = sorted(prob.genes)
+            lookup[key] = list(prob.shared_genes)
         self.markers = self.d / 'query_markers.json'
         self.markers.write_text(json.dumps(lookup))
         self.out_dir = self.d / 'mapping_out'
@@ -555,7 +570,8 @@ STAGES = {c.name: c for c in (Mapping, Stats, RefMarkers, RefMarkersTranspose,
                               PMask, PMarkers, Selection, Transpose)}
 
 
-def run_all_canonical(prob_seed, n_leaves, n_proc, fixtures, workdir):
+def run_all_canonical(prob_seed, n_leaves, n_proc, fixtures, workdir,
+                      selection_query_as_set=False):
     """canonical outputs of the listed fixtures (used in-process and, for the
     PYTHONHASHSEED runs, in a subprocess)"""
     import random
@@ -564,6 +580,8 @@ def run_all_canonical(prob_seed, n_leaves, n_proc, fixtures, workdir):
     for name in fixtures:
         with pipeline.quiet():
             st = STAGES[name](prob, workdir)
+            if name == 'selection':
+                st.query_as_set = selection_query_as_set
             st.run(n_proc)
         out[name] = st.canonical()
         if name == 'selection':
@@ -579,5 +597,6 @@ if __name__ == '__main__':
     spec = json.loads(sys.argv[1])
     with pipeline.workdir('ctmverif_hashseed_') as wd:
         res = run_all_canonical(spec['prob_seed'], spec.get('n_leaves'),
-                                spec['n_proc'], spec['fixtures'], wd)
+                                spec['n_proc'], spec['fixtures'], wd,
+                                spec.get('selection_query_as_set', False))
     sys.stdout.write('CANONICAL ' + json.dumps(res, sort_keys=True) + '\n')
